@@ -50,6 +50,11 @@ theorem gen_guards_sound : Guards.gen.Sound where
   cycle := by intro c N h; simp [Guards.gen, vmCycleCmp, Cmp.eval] <;> omega
   vmExp := by intro e t; simp [Guards.gen, vmTimeoutCmp, Cmp.eval] <;> omega
   blockExp := by intro e t; simp [Guards.gen, blockTimeoutCmp, Cmp.eval] <;> omega
+  size := by
+    intro i d hi
+    have h6 : i = 0 ∨ i = 1 ∨ i = 2 ∨ i = 3 ∨ i = 4 ∨ i = 5 := by omega
+    rcases h6 with h | h | h | h | h | h <;> subst h <;>
+      simp [Guards.gen, reSizeGuards, Cmp.eval, sizeBound, sizeBackward] <;> omega
 
 /-- The specification guards (used by the driver as the oracle of the correspondence run) are sound. -/
 theorem spec_guards_sound : Guards.spec.Sound where
@@ -68,6 +73,7 @@ theorem spec_guards_sound : Guards.spec.Sound where
   cycle := by intro c N h; simp [Guards.spec]; omega
   vmExp := by intro e t; simp [Guards.spec]
   blockExp := by intro e t; simp [Guards.spec]
+  size := by intro i d _; simp [Guards.spec]
 
 /-! ### timeout conversion and iterator guards (translated from the source) -/
 
@@ -110,6 +116,47 @@ theorem iter_guard_exact (e : IterFn) (hc : e.guardCmp = .ge) (hk : e.maxPushes 
 theorem gen_iter_table_sound : iterTable ≠ [] ∧ ∀ e ∈ iterTable, e.guardCmp = .ge ∧ e.maxPushes = e.guardK + 1 := by decide
 
 example : (⟨"iter_dict_next", 1, .ge, 3⟩ : IterFn).proceeds 1 3 = true ∧ ¬ (⟨"iter_dict_next", 1, .ge, 3⟩ : IterFn).inBounds 1 3 := by decide
+
+/-- **Accepted ⇒ the stored offset is the real distance**: whenever the size guard of a site of `_yr_re_emit` lets the
+    emission proceed, the 16-bit offset written into the split/jump instruction (`(int16_t) distance`, negative for the
+    backward jumps of `e+`/`e*`) equals the real distance — for every site and every distance. With `gen_guards_sound`
+    this holds for the guards as they are written in re.c (comparison and bound regenerated from the source). -/
+theorem jump_offset_representable {G : Guards} (hG : G.Sound) (i d : Nat) (hi : i < 6) (hacc : G.sizeErr i d = false) :
+    storedOffset i d = if sizeBackward i then -(d : Int) else (d : Int) := by
+  have hb : ¬ d > sizeBound i := fun h => by have := (hG.size i d hi).2 h; simp [this] at hacc
+  unfold storedOffset wrap16
+  by_cases hbk : sizeBackward i = true
+  · simp only [hbk, ↓reduceIte]
+    have : d ≤ 32768 := by simp [sizeBound, hbk] at hb; omega
+    split <;> omega
+  · simp only [hbk, ↓reduceIte]
+    have : d ≤ 32767 := by simp [sizeBound, hbk] at hb; omega
+    split <;> omega
+
+/-- … and the guards reject nothing that fits: TOO_LARGE exactly when the distance is not representable. -/
+theorem size_guard_exact {G : Guards} (hG : G.Sound) (i d : Nat) (hi : i < 6) :
+    G.sizeErr i d = true ↔ storedOffset i d ≠ (if sizeBackward i then -(d : Int) else (d : Int)) ∨ d > 65535 := by
+  rw [hG.size i d hi]
+  unfold storedOffset wrap16 sizeBound
+  by_cases hbk : sizeBackward i = true <;> simp only [hbk, ↓reduceIte, Bool.false_eq_true] <;> (split <;> omega)
+
+/-- what the forward guard of the ALT split would let through if it compared with `-(INT16_MIN)`: distance 32768 is
+    stored as -32768 -/
+example : storedOffset 3 32768 = -32768 ∧ storedOffset 3 32767 = 32767 ∧ storedOffset 0 32768 = -32768 := by decide
+
+/-- **A new scan starts with every string un-muted**: clearing `YR_BITMASK_SIZE(num_strings)` words covers every
+    string index, so a TOO_MANY_MATCHES/CONTINUE of an earlier scan never carries over (whatever the index). -/
+theorem clean_disabled_covers_strings (numStrings : Nat) (d : Nat → Bool) (i : Nat) (hi : i < numStrings) :
+    cleanDisabled numStrings d i = false := by
+  unfold cleanDisabled bitmaskWords
+  have : i < 64 * (numStrings / 64 + 1) := by omega
+  simp [this]
+
+/-- sizing the memset by a smaller count (e.g. the number of rules) leaves strings muted. Witness: 1 rule, string 64. -/
+example : cleanDisabled 1 (fun _ => true) 64 = true ∧ cleanDisabled 1 (fun _ => true) 63 = false := by decide
+
+/-- the source sizes that memset by the number of strings -/
+theorem gen_clean_sized_by_strings : cleanDisabledSizedBy = "num_strings" := by decide
 
 variable {G : Guards} (hG : G.Sound)
 include hG
